@@ -99,6 +99,7 @@ class Ctx:
         self.inconclusive = []
         self.only_case = None
         self._workers = []
+        self._diff = {}
         self._lock = threading.Lock()
         if self.args.replay:
             with open(self.args.replay) as f:
@@ -135,6 +136,16 @@ class Ctx:
         last = getattr(self, "_lap_t", self.t0)
         self.notes.setdefault("wall_by_phase_s", {})[name] = round(self.notes.get("wall_by_phase_s", {}).get(name, 0) + now - last, 1)
         self._lap_t = now
+
+    def diff(self, key, arr, limit=400, scale=0.0):
+        """Differential monitor: record a (sub-sampled) result under `key`; the parent compares the value recorded by its
+        sanitizer-build worker with its own (production build) to 1e-10 relative."""
+        a = np.asarray(arr).ravel()
+        if a.size > limit:
+            a = a[:: max(1, a.size // limit)][:limit]
+        if np.iscomplexobj(a):
+            a = np.concatenate([a.real, a.imag])
+        self._diff[key] = {"v": a.astype(float).tolist(), "scale": float(scale)}
 
     def count(self, name, n=1):
         with self._lock:
@@ -313,6 +324,26 @@ class Ctx:
             for v in res.get("violations", []):
                 m = v["mechanism"]
                 self.violation(m if m.startswith(name + ":") else name + ":" + m, v["message"], case_id=v.get("case_id"))
+            ncmp = 0
+            worstd = 0.0
+            for key, theirs in (res.get("diff") or {}).items():
+                mine = self._diff.get(key)
+                if mine is None:
+                    continue
+                a, b = np.asarray(mine["v"]), np.asarray(theirs["v"])
+                ncmp += 1
+                if a.shape != b.shape:
+                    self.violation("%s:differential:shape" % name, "%s: %s vs %s" % (key, a.shape, b.shape), case_id=key)
+                    continue
+                # relative to the natural magnitude of the quantity (given by the check), not to rounding noise around zero
+                sc = max(np.abs(a).max() if a.size else 0.0, np.abs(b).max() if b.size else 0.0, mine.get("scale", 0.0), 1e-300)
+                d = float(np.abs(a - b).max() / sc) if a.size else 0.0
+                worstd = max(worstd, d)
+                if not np.isfinite(d) or d > 1e-10:
+                    self.violation("%s:differential:%s" % (name, key.split(":")[0]), "%s: production and %s build differ by %.3e (relative)" % (key, name, d), case_id=key)
+            if res.get("diff"):
+                self.notes["worker_" + name]["differential_comparisons"] = ncmp
+                self.notes["worker_" + name]["differential_worst_rel"] = worstd
             for m, k in res.get("known_hits", {}).items():
                 kk = self.known_hits.setdefault(m, {"what": k.get("what", ""), "count": 0, "first": k.get("first")})
                 kk["count"] += k["count"]
@@ -365,6 +396,7 @@ class Ctx:
                 "known_hits": self.known_hits,
                 "counters": self.counters,
                 "notes": self.notes,
+                "diff": self._diff,
                 "wall_s": round(time.time() - self.t0, 2),
             }
             path = self.args.out
